@@ -227,11 +227,15 @@ bool comp_init(zckCtx *zck) {
             zck->chunk_auto_min = (zck->buzhash_bitmask + 1) / 4;
             if(zck->chunk_auto_min < zck->chunk_min_size)
                 zck->chunk_auto_min = zck->chunk_min_size;
+            if(zck->chunk_auto_min > zck->chunk_max_size)
+                zck->chunk_auto_min = zck->chunk_max_size;
             zck_log(ZCK_LOG_DEBUG, "Setting automatic minimum chunk size to %llu",
                     (long long unsigned) zck->chunk_auto_min);
             zck->chunk_auto_max = (zck->buzhash_bitmask + 1) * 4;
             if(zck->chunk_auto_max > zck->chunk_max_size)
                 zck->chunk_auto_max = zck->chunk_max_size;
+            if(zck->chunk_auto_max < zck->chunk_min_size)
+                zck->chunk_auto_max = zck->chunk_min_size;
             zck_log(ZCK_LOG_DEBUG, "Setting automatic maximum chunk size to %llu",
                     (long long unsigned) zck->chunk_auto_max);
         }
